@@ -4,7 +4,7 @@ sys.path.insert(0, os.path.dirname(os.path.abspath(__file__)))
 import dfs_common as D
 
 def jobs(tier):
-    return D.crc_jobs(Job) + D.bitstream_jobs(Job) + (D.c06_extra(Job, tier) if hasattr(D, "c06_extra") else [])
+    return D.crc_jobs(Job) + D.bitstream_jobs(Job) + D.mfm_decoder_jobs(Job) + (D.c06_extra(Job, tier) if hasattr(D, "c06_extra") else [])
 
 META = {
     "trusted_base": D.DFS_TRUSTED,
